@@ -211,6 +211,32 @@ def ok_guarded(body, target_bb, site):
     if not body.must_pass(target_bb, through_edges=[(site.bb, site.target)]):
         return False, "a path reaches the target without executing %s" % site.name
     if not body.must_pass(target_bb, through_edges=edges, start=site.target):
+        # the success may be handed on in a second Result (`match site() { Ok(x) => Ok(x), Err(e) => Err(wrap(e)) }` in a helper
+        # whose own result the caller tests — the shape an inlined `?`-returning helper has): every Ok(..) written to
+        # that Result lies behind the site's Ok edge, and the target behind the Ok edge of its test
+        outer = set()
+        for bb in range(body.n):
+            if body.is_cleanup(bb):
+                continue
+            for st in body.blocks[bb]["stmts"]:
+                rv = st["rv"]
+                if st["k"] == "assign" and not st["pl"]["p"] and rv["k"] == "aggregate" and rv.get("variant") == "Ok" \
+                        and any(o.kind == "call" and o.site is not None and o.site.bb == site.bb for op in rv.get("ops", []) for o in origins(body, op)):
+                    outer.add(st["pl"]["l"])
+        for l2 in sorted(outer):
+            oks = [bb for bb in range(body.n) if not body.is_cleanup(bb) for st in body.blocks[bb]["stmts"]
+                   if st["k"] == "assign" and st["pl"] == {"l": l2, "p": []} and st["rv"]["k"] == "aggregate" and st["rv"].get("variant") == "Ok"]
+            plain = [bb for bb in range(body.n) if not body.is_cleanup(bb) for st in body.blocks[bb]["stmts"]
+                     if st["k"] == "assign" and st["pl"] == {"l": l2, "p": []} and not (st["rv"]["k"] == "aggregate" and st["rv"].get("variant") in ("Ok", "Err"))]
+            calls_def = [c for c in body.calls() if c.dest and c.dest == {"l": l2, "p": []} and c.name not in
+                         ("<std::result::Result<T, F> as std::ops::FromResidual<std::result::Result<std::convert::Infallible, E>>>::from_residual",)]
+            if plain or calls_def or not all(body.must_pass(x, through_edges=edges, start=site.target) for x in oks):
+                continue
+            e2 = []
+            for t in result_tests(body, l2):
+                e2 += t.ok_edges()
+            if e2 and body.must_pass(target_bb, through_edges=e2, start=site.target):
+                return True, "ok (through a second Result)"
         return False, "a path from %s reaches the target over an Err edge / without testing the result" % site.name
     return True, "ok"
 
